@@ -12,6 +12,7 @@ import (
 // c11Extra: rules added after the third independent seeding round.
 func c11Extra(r *core.Run) {
 	p := r.P
+	defer c11R6(r)
 	// role: the field flattener is the function of the package that returns a
 	// []reflect.Value and calls itself (embedded structs are flattened recursively)
 	r.Check("D3/K3/fields-in-declaration-order", "the field flattener of the row mapper builds one list in declaration order: nothing appends one accumulated list onto another (which would move the fields of an embedded struct away from their position)", func(o *core.O) {
